@@ -473,13 +473,33 @@ def g1_captured_state(ctx: Ctx):
         gs = [norm(g) for g, arm in guards_of(ev, st, parents)]
         # must not be conditional on `convert` or on a cache miss
         refreshed = refreshed and not any('convert' in g or 'func_cache' in g for g in gs)
+        # which kinds of captured value the filter lets through, read from its source: every kind of *data* a captured
+        # value can be once converted (the arms of to_value) -- the containers, or a store into one persists across calls;
+        # the scalars and contexts, or a name rebound since the first evaluation is read stale by a function that was
+        # evaluated before and fresh by one that was not
+        from ..minipy import Interp, Obj
+        data_kinds = set(kinds)
+        for m in [s for s in walk_no_nested(tv) if isinstance(s, ast.Match)]:
+            for c in m.cases:
+                if c.guard is None and any(isinstance(s, ast.Return) for s in c.body):
+                    data_kinds |= {dotted(p.cls) or '' for p in ast.walk(c.pattern) if isinstance(p, ast.MatchClass)}
+        data_kinds -= {'Foreign', 'RealFloat', 'int', 'float'}          # a wrapped foreign object is not data; the last three are converted to Float
+        native = {'list': [], 'tuple': (), 'bool': True}
         for g in [f for gen in dc.generators for f in gen.ifs]:
-            named: set[str] = set()
-            if isinstance(g, ast.Call) and call_name(g) == 'isinstance' and len(g.args) == 2:
-                named = {n.id for n in ast.walk(g.args[1]) if isinstance(n, ast.Name)}
-            covered = kinds <= named
-            ctx.check(covered, BYTE, g, 'BytecodeInterpreter.eval', f'the per-call refresh covers every container kind a captured value can be ({sorted(kinds)})',
-                      f'filter `{norm(g)}` leaves {sorted(kinds - named)} unrefreshed: a store into a list held by a captured {sorted(kinds - named)[0] if kinds - named else "?"} persists across calls')
+            missed = []
+            for kind in sorted(data_kinds):
+                held = native.get(kind, Obj(kind))
+                it = Interp({}, {}, is_a=lambda k, c: k == c)
+                try:
+                    ok_kind = bool(it.ev(g, {'fn': Obj('function', __globals__={'v': held}), 'var': 'v', 'str': str}))
+                except ShapeError:
+                    ok_kind = False
+                if not ok_kind:
+                    missed.append(kind)
+            covered = not missed
+            ctx.check(covered, BYTE, g, 'BytecodeInterpreter.eval', f'the per-call refresh covers every kind of data a captured value can be ({sorted(data_kinds)})',
+                      f'filter `{norm(g)}` leaves {missed} as the first evaluation found them: a store into a captured container persists across calls, and after `K = 3.0` '
+                      'a function evaluated before the rebinding still multiplies by 2.0 while its never-evaluated twin multiplies by 3.0')
             refreshed = refreshed and covered
         if refreshed and isinstance(st.targets[0], ast.Name):
             fresh_name = st.targets[0].id
@@ -560,8 +580,10 @@ MUTANTS = [
            'seeded change C18d: inlining a callee with no locals rewrites the callee\'s own `return`'),
     Mutant('inliner-renames-only-when-there-is-something-to-rename', 'fpy2/transform/func_inline.py', "        ast = RenameTarget.apply(ast, subst)\n", "        if subst:\n            ast = RenameTarget.apply(ast, subst)\n", 'C18.E4'),
     Mutant('lifted-bindings-stored-into-the-given-function', 'fpy2/transform/lift_context.py', "        func = super()._visit_function(func, ctx)\n        # prepend variable bindings", "        super()._visit_function(func, ctx)\n        # prepend variable bindings", 'C18.E4'),
-    Mutant('captured-tuples-not-refreshed', BYTE, "            if isinstance(fn.__globals__.get(str(var)), list | tuple)", "            if isinstance(fn.__globals__.get(str(var)), list)", 'C18.G1',
+    Mutant('captured-tuples-not-refreshed', BYTE, "            if not isinstance(fn.__globals__.get(str(var)), Foreign)", "            if isinstance(fn.__globals__.get(str(var)), list)", 'C18.G1',
            'seeded change C18a: a store into a list held by a captured tuple survives the call'),
+    Mutant('captured-scalars-as-first-found', BYTE, "            if not isinstance(fn.__globals__.get(str(var)), Foreign)", "            if isinstance(fn.__globals__.get(str(var)), list | tuple)", 'C18.G1',
+           'finding F88 before its repair: after K = 3.0 a function evaluated before multiplies by 2.0, its never-evaluated twin by 3.0'),
     Mutant('active-context-in-global', BYTE, "        ctx = self._func_ctx(func.ast, ctx)\n        if convert:", "        global _ACTIVE_CTX\n        _ACTIVE_CTX = ctx = self._func_ctx(func.ast, ctx)\n        if convert:", 'C18.E1'),
     Mutant('engine-registered-lazily', 'fpy2/ops.py', "def _normalize(x: Float | Fraction, ctx: Context, args: tuple[Float | Fraction, ...] = ()):\n", "def _normalize(x: Float | Fraction, ctx: Context, args: tuple[Float | Fraction, ...] = ()):\n    from .number.engine import register_engine, RealEngine\n    register_engine(RealEngine.instance())\n", 'C18.E1'),
     Mutant('memo-table', 'fpy2/number/context/context.py', "    def _round_prepare(self, x) -> RealFloat | Float:", "    _memo: dict = {}\n\n    def _round_prepare(self, x) -> RealFloat | Float:\n        self._last = x", 'C18.E1b'),
@@ -584,8 +606,8 @@ MUTANTS = [
     Mutant('captured-list-refreshed-in-the-shared-namespace', BYTE, "        if captured:\n            call = types.FunctionType(\n                fn.__code__, {**fn.__globals__, **captured},\n                fn.__name__, fn.__defaults__, fn.__closure__,\n            )\n            call.__kwdefaults__ = fn.__kwdefaults__\n            fn = call\n",
            "        for name, value in captured.items():\n            fn.__globals__[name] = value\n", 'C18.G1',
            'finding F64 before its repair: every evaluation of the function under way sees the same lists'),
-    Mutant('captured-list-refreshed-only-at-boundary', BYTE, "            for var in func.ast.free_vars\n            if isinstance(fn.__globals__.get(str(var)), list | tuple)\n        }",
-           "            for var in func.ast.free_vars\n            if isinstance(fn.__globals__.get(str(var)), list | tuple)\n        } if convert else {}", 'C18.G1'),
+    Mutant('captured-list-refreshed-only-at-boundary', BYTE, "            for var in func.ast.free_vars\n            if not isinstance(fn.__globals__.get(str(var)), Foreign)\n        }",
+           "            for var in func.ast.free_vars\n            if not isinstance(fn.__globals__.get(str(var)), Foreign)\n        } if convert else {}", 'C18.G1'),
     Mutant('own-namespace-without-the-fresh-lists', BYTE, "                fn.__code__, {**fn.__globals__, **captured},", "                fn.__code__, {**fn.__globals__},", 'C18.G1'),
     Mutant('mpfr-precision-set-globally', GMPUTILS, "    with gmp.context(\n        precision=prec,", "    gmp.get_context().precision = prec\n    with gmp.context(\n        precision=prec,", 'C18.G1'),
 ]
